@@ -74,6 +74,17 @@ CHECKS["C12"] = dict(
     design_ref="DESIGN.md#c12",
 )
 
+CHECKS["C13"] = dict(
+    category="exploration",
+    text="Per comparison group (document incl. filtered patterns/formats, examples, links, multi-file; phase subsets; modes; seed) the "
+    "request log of the deterministic API is compared: two fresh processes with the same seed and different PYTHONHASHSEED, two "
+    "runs in one process (sequence equality per phase, equal failure sets), 1 vs 2 vs 4 workers under seeded schedule jitter "
+    "(per-operation multiset equality in the unit phases); a different seed must be able to differ.",
+    note="Per-case id header, User-Agent and Host are excluded; a fresh child is not compared with the long-lived shard process (Hypothesis' constants pool depends on imported local modules).",
+    technique="runtime monitoring: offline comparison of recorded request logs across processes, repetitions and worker counts",
+    design_ref="DESIGN.md#c13",
+)
+
 NOT_APPLICABLE = {}
 
 
